@@ -136,6 +136,29 @@ def run(ctx):
             worst[tag + '/cdf'] = max(worst.get(tag + '/cdf', 0), abs(cd[k] - ref) / (eps * ref * (1 + z * z) + 1e-300))
             if not abs(cd[k] - ref) <= tol:
                 ctx.fail(f'C04/normal-cdf/{tag}', 'standard Normal cdf differs from the exact value beyond a few units of rounding (far tail included)', {'z': z, 'backend': [bk, prec]}, float(cd[k]), ref)
+    # ---------------- directed single-element calls at the edge of the double range (vectorised and scalar kernels of a library may treat
+    # subnormal numbers differently): denormal rates and results, on every 64-bit backend, after all backends have been initialised
+    for bk in ['numpy', 'jax', 'pytorch', 'tensorflow', 'numpy']:
+        pyhf.set_backend(bk, precision='64b')
+        tl = pyhf.tensorlib
+        one = lambda v: tl.astensor(np.asarray([v], dtype=np.float64))
+        for n, lam in [(1.0, 5e-324), (3.0, 1e-310), (2.0, 2e-308), (1.0, 1e-300), (0.0, 5e-324)]:
+            with np.errstate(all='ignore'):
+                got = float(np.asarray(tl.tolist(tl.poisson_logpdf(one(n), one(lam))), dtype=float).ravel()[0])
+                gotd = float(np.asarray(tl.tolist(pyhf.probability.Poisson(one(lam)).log_prob(one(n))), dtype=float).ravel()[0])
+            ref, mag = pois_ref(n, lam); ctx.count()
+            inp = {'n': n, 'lam': lam, 'backend': [bk, '64b'], 'call': 'one-element tensor'}
+            for what, g in (('poisson_logpdf', got), ('Poisson.log_prob', gotd)):
+                if lam < 2.3e-308 and bk in ('jax', 'tensorflow') and g == -math.inf and n > 0:
+                    ctx.fail(f'C04/denormal-rate-flushed/{bk}', 'a denormal rate is flushed to zero (XLA/Eigen flush-to-zero): log-mass -inf instead of the finite exact value', inp, g, ref)
+                elif not abs(g - ref) <= 64 * 2.3e-16 * mag + 1e-300:
+                    ctx.fail(f'C04/poisson-logpdf/{bk}64b', f'{what} on a one-element tensor differs from the exact value (subnormal rate)', inp, g, ref)
+        for z in [-37.0, -36.0, -30.0]:      # results still in the normal range (below it the tolerance policy of the grid asks for nothing: absolute 1e-300)
+            with np.errstate(all='ignore'):
+                g = float(np.asarray(tl.tolist(tl.normal_cdf(one(z))), dtype=float).ravel()[0])
+            ref = float(mp.ncdf(mp.mpf(z))); ctx.count()
+            if not abs(g - ref) <= 64 * 2.3e-16 * ref * (1 + z * z) + 1e-300:
+                ctx.fail(f'C04/normal-cdf/{bk}64b', 'standard Normal cdf of a one-element tensor differs from the exact value in the far tail (subnormal result)', {'z': z, 'backend': [bk, '64b']}, g, ref)
     pyhf.set_backend('numpy', precision='64b')
     ctx.notes['worst_error_in_units_of_eps_times_terms'] = {k: round(v, 2) for k, v in worst.items()}
     ctx.sample({'poisson(n,lam)': pois[0], 'normal(x,mu,sigma)': norms[0], 'cdf_arg': cdfs[0]})
